@@ -27,13 +27,16 @@ Definition SLInv (s : seqlines) : Prop :=
 Lemma sl_init_inv r s : fa_seq_lines r = Some s -> SLInv s /\ sl_rec s = r /\
   sl_todo s = seq 0 (length (rseqpos r) - 1).
 Proof.
-  unfold fa_seq_lines. destruct (rseqpos r) as [|x xs] eqn:E; [discriminate|].
+  unfold fa_seq_lines. cbv zeta.
   intros H; inversion H; subst; clear H.
-  unfold SLInv, sl_todo, sl_len; cbn [af ab bf bb sl_rec length].
-  split; [|split].
-  - left. destruct xs; cbn; lia.
-  - reflexivity.
-  - f_equal. destruct xs; cbn [length Nat.min]; lia.
+  unfold SLInv, sl_todo, sl_len; cbn [af ab bf bb sl_rec].
+  (* an empty offset list gives the empty iterator (second disjunct of SLInv) *)
+  destruct (rseqpos r) as [|x xs]; cbn [length].
+  - split; [right; cbn; lia|split; reflexivity].
+  - split; [|split].
+    + left. destruct xs; cbn; lia.
+    + reflexivity.
+    + f_equal. destruct xs; cbn [length Nat.min]; lia.
 Qed.
 
 Lemma sl_len_live s : bf s = S (af s) -> bf s <= bb s -> (ab s = bb s \/ S (ab s) = bb s) ->
